@@ -114,7 +114,8 @@ AttrNames == {"allow", "deprecated", "compress", "slicedFormat", "oneway", "unkn
 \* operations in every return shape: nothing (also with a streamed parameter), one value, one streamed value, a tuple, a
 \* tuple ending in a stream
 OpTargets == {"operation", "operation_streamparam", "operation_ret", "operation_retstream", "operation_rettuple", "operation_rettuplestream"}
-Targets == {"file", "module", "struct", "field", "interface", "parameter", "retmember", "enum", "enumerator",
+\* "fileonly": a file attribute in a file that holds nothing else (no module declaration, no definitions)
+Targets == {"file", "fileonly", "module", "struct", "field", "interface", "parameter", "retmember", "enum", "enumerator",
             "custom", "alias", "typeref", "base", "underlying", "enfield", "cstruct", "cenum",
             "typeref_enfield", "typeref_param", "typeref_ret", "typeref_elem"} \cup OpTargets
 \* "dupfile": the argument DuplicateFile - a lint of the command line only, no valid argument of the allow attribute
@@ -123,7 +124,7 @@ AttrItems == [a : AttrNames, on : Targets, args : ArgShapes, twice : BOOLEAN]
 IsTypeRefTarget(t) == t \in {"typeref", "base", "underlying", "typeref_enfield", "typeref_param", "typeref_ret", "typeref_elem"}
 LegalOn(a, t) ==
   CASE a = "allow" -> ~(t = "module" \/ IsTypeRefTarget(t))
-    [] a = "deprecated" -> t \notin {"file", "module", "parameter", "retmember"} /\ ~IsTypeRefTarget(t)
+    [] a = "deprecated" -> t \notin {"file", "fileonly", "module", "parameter", "retmember"} /\ ~IsTypeRefTarget(t)
     [] a \in {"compress", "slicedFormat"} -> t \in OpTargets
     [] a = "oneway" -> t \in {"operation", "operation_streamparam"}              \* only operations that return nothing (a streamed return is a return)
     [] OTHER -> TRUE
@@ -148,7 +149,7 @@ VAttrs(it) ==
 (* F9 attribute lists: up to three attributes in front of one operation (every one of them legal there); an attribute  *)
 (* that is not repeatable must not occur twice - wherever in the list, whatever stands between the two                 *)
 ListNames == {"allow", "deprecated", "compress", "foreign", "slicedFormat"}
-AttrListItems == [as : SeqsOver(ListNames, 1, 3)]
+AttrListItems(maxLen) == [as : SeqsOver(ListNames, 1, maxLen)]
 VAttrLists(it) == IF \E i, j \in 1..Len(it.as) : i < j /\ it.as[i] = it.as[j] /\ ~Repeatable(it.as[i]) THEN {"E026"} ELSE {}
 
 ----------------------------------------------------------------------------------------------------
